@@ -11,12 +11,15 @@ Import ListNotations.
 Definition kd := (string * (nat * nat * nat))%type.
 Definition no_keep : string -> bool := fun _ => false.
 
+(* the model's decomposition of the generic instance of kind k in configuration c *)
+Definition fres (k : kd) (c : cfg) : result (list mgate) := resolve_gate c no_keep (generic (fst k) (snd k) 0).
 (* semantic obligation: decomposition of the generic gate = the gate, as 2^k x 2^k tables of polynomials *)
-Definition check_sem (c : cfg) (k : kd) : bool :=
-  match resolve_gate c no_keep (generic (fst k) (snd k) 0) with
+Definition ok_res (k : kd) (r : result (list mgate)) : bool :=
+  match r with
   | Ok gs => scirc_eqb (kqubits (snd k)) (map to_sgate gs) [to_sgate (generic (fst k) (snd k) 0)]
   | Error => true
   end.
+Definition check_sem (c : cfg) (k : kd) : bool := ok_res k (fres k c).
 (* membership obligation *)
 Definition check_basis (c : cfg) (k : kd) : bool :=
   match resolve_gate c no_keep (generic (fst k) (snd k) 0) with
@@ -66,17 +69,45 @@ Definition canons (k : kd) : list cfg :=
   let n := dispatched k in
   flat_map (fun q => map (fun rv => Cfg q (snd rv) (fst rv)) rotviews)
            (dedupe (map (fun q => canon2q q n) (sublists basis_2q_valid))).
-(* c and c' are indistinguishable for a gate dispatched under the name n *)
-Definition agree (c c' : cfg) (n : string) : bool :=
-  Bool.eqb (mem n (c2q c)) (mem n (c2q c')) &&
-  Bool.eqb (String.eqb n "SWAP" && mem "ISWAP" (c2q c)) (String.eqb n "SWAP" && mem "ISWAP" (c2q c')) &&
-  opt_eqb (first_2q c) (first_2q c') && Bool.eqb (celim c) (celim c') && (negb (celim c) || list_eqb (crot c) (crot c')).
+(* q and q' are indistinguishable for a gate dispatched under the name n *)
+Definition agree2q (q q' : list string) (n : string) : bool :=
+  Bool.eqb (mem n q) (mem n q') &&
+  Bool.eqb (String.eqb n "SWAP" && mem "ISWAP" q) (String.eqb n "SWAP" && mem "ISWAP" q') &&
+  opt_eqb (find (fun u => mem u q) basis_2q_order) (find (fun u => mem u q') basis_2q_order).
+Definition agree_all : bool :=
+  forallb (fun k => forallb (fun q => agree2q q (canon2q q (dispatched k)) (dispatched k)) (sublists basis_2q_valid)) kinds.
 
-(* the semantic obligations of a list of kinds: every canonical configuration of every kind *)
-Definition obls_ok (ks : list kd) : bool := forallb (fun k => forallb (fun c => check_sem c k) (canons k)) ks.
-(* every configuration of l has its canonical form (for kind k) in cs *)
-Definition covered (l : list cfg) (k : kd) (cs : list cfg) : bool := forallb (fun c => memc (canon c k) cs) l.
-Definition cover_all (l : list cfg) (ks : list kd) : bool := forallb (fun k => covered l k (canons k)) ks.
+(* ---- distinct decompositions ----------------------------------------------------------------------------------------
+   Different canonical configurations often give the same gate list (a one-qubit gate does not care which two-qubit pass
+   runs); the expensive symbolic comparison is done once per distinct result.  The equalities below are only used to
+   group results - nothing relies on them being correct: [outs_eq] re-checks the grouping by plain conversion. *)
+Definition q_eqb (a b : Q) : bool := Z.eqb (Qnum a) (Qnum b) && Pos.eqb (Qden a) (Qden b).
+Fixpoint ex_eqb (a b : ex) : bool :=
+  match a, b with
+  | Num p, Num q => q_eqb p q | Imag p, Imag q => q_eqb p q | Pi, Pi => true | Var i, Var j => Nat.eqb i j
+  | Add a1 a2, Add b1 b2 | Sub a1 a2, Sub b1 b2 | Mul a1 a2, Mul b1 b2 | Div a1 a2, Div b1 b2 => ex_eqb a1 b1 && ex_eqb a2 b2
+  | Neg a1, Neg b1 | Cos a1, Cos b1 | Sin a1, Sin b1 | Exp a1, Exp b1 | Sqrt a1, Sqrt b1 => ex_eqb a1 b1
+  | _, _ => false
+  end.
+Fixpoint lst_eqb {A} (e : A -> A -> bool) (a b : list A) : bool :=
+  match a, b with [], [] => true | x :: a', y :: b' => e x y && lst_eqb e a' b' | _, _ => false end.
+Definition mgate_eqb (a b : mgate) : bool :=
+  String.eqb (gname a) (gname b) && lst_eqb Nat.eqb (gtargets a) (gtargets b) && lst_eqb Nat.eqb (gcontrols a) (gcontrols b)
+  && lst_eqb ex_eqb (gargs a) (gargs b) && Nat.eqb (gsrc a) (gsrc b).
+Definition res_eqb (a b : result (list mgate)) : bool :=
+  match a, b with Ok x, Ok y => lst_eqb mgate_eqb x y | Error, Error => true | _, _ => false end.
+Fixpoint dedupe_r (l : list (result (list mgate))) : list (result (list mgate)) :=
+  match l with [] => [] | r :: l' => let d := dedupe_r l' in if existsb (res_eqb r) d then d else r :: d end.
+Fixpoint index_r (r : result (list mgate)) (l : list (result (list mgate))) : nat :=
+  match l with [] => 0 | x :: l' => if res_eqb r x then 0 else S (index_r r l') end.
+
+Definition outs (k : kd) : list (result (list mgate)) := dedupe_r (map (fres k) (canons k)).
+Definition idxs (k : kd) : list nat := let o := outs k in map (fun r => index_r r o) (map (fres k) (canons k)).
+(* the semantic obligations of a list of kinds: every distinct decomposition of every kind *)
+Definition obls_ok (ks : list kd) : bool := forallb (fun k => forallb (ok_res k) (outs k)) ks.
+(* every decomposition under a canonical configuration is one of the distinct ones (or a refusal) *)
+Definition outs_eq (ks : list kd) : Prop :=
+  map (fun k => map (fres k) (canons k)) ks = map (fun k => let o := outs k in map (fun i => nth i o Error) (idxs k)) ks.
 
 (* the kinds, split for parallel compilation *)
 Definition kslice (i : nat) : list kd :=
